@@ -92,6 +92,22 @@ def _replay(stem, vals):
             keep = [k for k in range(3) if k != p % 3]
             if v.natoms != 2 or v.atoms.old_id.tolist() != keep or not np.allclose(v.atoms.pos, pos[keep]):
                 msgs.append('vacancy(ptd_id=%d) wrong rows/old_id' % p)
+        # selection by position: a unique atom within the tolerance is addressed, an ambiguous or absent site is refused
+        pos2 = np.vstack([pos, pos[0] + [0.004, 0.0, 0.0]])
+        amb = am.System(atoms=am.Atoms(atype=[1, 2, 1, 1], pos=pos2), box=box, pbc=(True, True, False), symbols=['Al', 'Cu'])
+        try:
+            out = am.defect.vacancy(amb, pos=pos[0] + [0.002, 0.0, 0.0])
+            msgs.append('vacancy at a position with two atoms within the tolerance was not refused (it removed atom %r)' % [k for k in range(4) if k not in out.atoms.old_id.tolist()])
+        except ValueError:
+            pass
+        one = am.defect.vacancy(amb, pos=pos[1])
+        if one.atoms.old_id.tolist() != [0, 2, 3]:
+            msgs.append('vacancy by the position of atom 1 removed %r' % [k for k in range(4) if k not in one.atoms.old_id.tolist()])
+        try:
+            am.defect.vacancy(amb, pos=pos[1] + [0.5, 0.5, 0.5])
+            msgs.append('vacancy at an empty position was not refused')
+        except ValueError:
+            pass
     except Exception as e:
         msgs.append('raised %s: %s' % (type(e).__name__, e))
     return (len(msgs) > 0, '; '.join(msgs[:3]) if msgs else 'float replay of the point-defect contracts found no disagreement')
